@@ -153,4 +153,18 @@ MUTANTS = {
         # not listed: async_ready without _remove_answers_from_queue re-sends an answer that a later, already queued
         # group also holds; each copy still lies in the window of its own query, which is all C12 states
     },
+    "C13": {
+        "stale_replaced_by_expired": [("_services/browser.py", "            if not record.is_stale(now_millis)\n", "            if not record.is_expired(now_millis)\n")],
+        "history_window_1999": [("const.py", "_DUPLICATE_QUESTION_INTERVAL = 999", "_DUPLICATE_QUESTION_INTERVAL = 1999")],
+        "history_never_suppresses": [("_history.py", "        if previous_known_answers - known_answers:\n            return False\n        return True", "        return False")],
+        "qu_recorded_in_history": [("_services/browser.py", "        if not qu_question and question_history.suppresses(question, now_millis, known_answers):", "        if question_history.suppresses(question, now_millis, known_answers):"), ("_services/browser.py", "        if not qu_question:\n            question_history.add_question_at_time(question, now_millis, known_answers)", "        question_history.add_question_at_time(question, now_millis, known_answers)")],
+        "lookup_first_request_never_cleared": [("_services/info.py", "                    first_request = False\n", "")],
+        # not listed: remaining-vs-absolute TTL of a *lookup's* known answers is unreachable: a lookup that has an
+        # unexpired address record is complete and never queries, and SRV/TXT questions are omitted when answered
+        "lookup_asks_srv_despite_answer": [("_services/info.py", "        if skip_if_known_answers and known_answers:\n            return\n", "")],
+        "browser_known_answers_dropped": [("_services/browser.py", "        for answer in answers:\n            self.out.add_answer_at_time(answer, self.now_millis)", "        for answer in list(answers)[:0]:\n            self.out.add_answer_at_time(answer, self.now_millis)")],
+        "tc_flag_never": [("_protocol/outgoing.py", "            if has_more_to_add and self.is_query():", "            if False:")],
+        "d12_reverted": [("_handlers/query_handler.py", "                        if record.key == question.key and question.type in (record.type, _TYPE_ANY)", "                        if True")],
+        "history_subset_test_inverted": [("_history.py", "        if previous_known_answers - known_answers:", "        if known_answers - previous_known_answers:")],
+    },
 }
